@@ -23,7 +23,8 @@ import (
 
 type verifOp struct {
 	M    string         `json:"m"`
-	Form string         `json:"form"` // ctx | plain | canceled
+	W    int            `json:"w"`    // shard index of a #restart
+	Form string         `json:"form"` // ctx | plain | canceled | deadline
 	A    c12raw.C12Args `json:"a"`
 }
 
@@ -533,9 +534,27 @@ func verifKV(c verifCase) any {
 	raw := red.NewClient(&red.Options{Addr: sr.Addr()})
 	defer raw.Close()
 
+	// where the keys live (server holding them) and where the dispatcher says they belong: snapshots
+	places := [][]any{}
+	snapshot := func() {
+		for i, s := range shards {
+			for _, k := range s.Keys() {
+				places = append(places, []any{k, i})
+				if node, ok := store.(kvStore).dispatcher.Get(k); ok {
+					for j, t := range shards {
+						if t.Addr() == node.(*redis.Redis).Addr {
+							places = append(places, []any{k, j})
+						}
+					}
+				}
+			}
+		}
+	}
 	steps := []any{}
+	var mark any
 	for _, op := range c.Ops {
-		if op.M == "#ff" {
+		switch op.M {
+		case "#ff":
 			d := time.Duration(op.A.I(0)) * time.Second
 			for _, s := range shards {
 				s.FastForward(d)
@@ -543,34 +562,49 @@ func verifKV(c verifCase) any {
 			sr.FastForward(d)
 			steps = append(steps, map[string]any{"skip": "ff"})
 			continue
+		case "#restart": // shard op.W (data kept; the store's pooled connections to it are dead afterwards)
+			snapshot()
+			s := shards[op.W%len(shards)]
+			s.Close()
+			if err := s.Restart(); err != nil {
+				return map[string]any{"error": "restart: " + err.Error()}
+			}
+			steps = append(steps, map[string]any{"skip": "restart"})
+			continue
+		case "#mark":
+			mark = c12raw.C12Dump(shards...)
+			steps = append(steps, map[string]any{"skip": "mark"})
+			continue
 		}
-		ctx := context.Background()
-		if op.Form == "canceled" {
-			cctx, cancel := context.WithCancel(ctx)
+		ctx, cancel := context.Background(), func() {}
+		switch op.Form {
+		case "canceled":
+			ctx, cancel = context.WithCancel(ctx)
 			cancel()
-			ctx = cctx
+		case "deadline":
+			ctx, cancel = context.WithDeadline(ctx, time.Unix(1, 0))
 		}
 		wv, we, ok := verifWrap(store, ctx, op.Form == "plain", op.M, op.A)
 		if !ok {
 			steps = append(steps, map[string]any{"skip": "unknown method " + op.M})
+			cancel()
 			continue
 		}
 		rm, ra := verifRawCall(op.M, op.A)
 		rv, re, _, _ := c12raw.C12Raw(raw, ctx, rm, ra)
+		cancel()
 		steps = append(steps, map[string]any{
 			"w":   map[string]any{"v": c12raw.C12Val(c12raw.C12Canon(op.M, wv)), "e": c12raw.C12Err(we)},
 			"r":   map[string]any{"v": c12raw.C12Val(c12raw.C12Canon(op.M, rv)), "e": c12raw.C12Err(re)},
 			"brk": "n/a", "xw": "", "xr": "",
 		})
 	}
-	// where the keys live: shard index per key (for the evidence; the comparison uses the union)
-	placement := map[string]int{}
-	for i, s := range shards {
-		for _, k := range s.Keys() {
-			placement[k] = i
-		}
+	snapshot()
+	out := map[string]any{"steps": steps, "dump_w": c12raw.C12Dump(shards...), "dump_r": c12raw.C12Dump(sr), "places": places}
+	if mark != nil {
+		out["dump_w0"] = mark
 	}
-	return map[string]any{"steps": steps, "dump_w": c12raw.C12Dump(shards...), "dump_r": c12raw.C12Dump(sr), "placement": placement}
+	return out
 }
 
 func TestVerifDriver(t *testing.T) {
